@@ -58,6 +58,32 @@ CHECKS = {
             'gevent loop replaced by the virtual-time loop; exact clock; 0.01 s resolution checked with 1 ms tolerance',
             'Hypothesis op-list state machine vs reference schedule on a virtual gevent clock',
             '5/C10', 'simkernel'),
+    'C13': ('exploration',
+            'Generated calls with drawn client ids, public message properties, deadlines and reply behaviours go through the '
+            'real ThriftMux sink chain on the simulated socket; every frame the peer receives is decoded by an independent mux '
+            'codec and compared field by field with what was supplied (contexts byte-exact, empty dest/dtab, Thrift payload via '
+            'the Thrift library, Tdiscarded naming the request tag). Header writer / reply-header reader / discard body are '
+            'round-tripped over tag ranges: boundary ranges in quick, all 2^24 tags in thorough (exhaustive: true).',
+            'context keys/values are text; deadline compared with 2 ms tolerance; sendall atomic',
+            'Hypothesis + independent mux decoder round trip; exhaustive tag x type header enumeration in thorough',
+            '5/C13', 'simnet'),
+    'C14': ('exploration',
+            'Generated call sequences over the generated Hello interface and a dynamic-style fixture go through MessageDispatcher '
+            '-> ThriftSerializerSink -> serial transport on the simulated socket; the peer decodes with the Thrift library\'s '
+            'pure-Python protocol and a processor (scales encodes with the C codec): method, value-equal arguments, framing; '
+            'caller outcome for value / void / declared exception / application exception; every sequence is run under two read '
+            'chunkings and the outcomes must agree.',
+            'fixture service hand-written in py:dynamic layout and self-checked; finite doubles; no lone surrogates',
+            'differential test against the Thrift library codec + chunking metamorphic relation',
+            '5/C14', 'simnet'),
+    'C15': ('exploration',
+            'Generated produce calls and concurrent requests through KafkaSerializerSink -> KafkaTransportSink on the simulated '
+            'socket; the harness\'s strict Kafka v0 parser checks every size, CRC and header field of the request bytes; produce '
+            'and metadata responses from the harness encoder must decode to exactly the encoded tuples and reach the request '
+            'with the same correlation id under any reply order.',
+            'topics and payloads are bytes; message carries the KafkaEndpoint the balancer would stamp',
+            'Hypothesis + independent Kafka v0 parser/encoder; CRC/size/correlation oracle',
+            '5/C15', 'simnet'),
     'C17': ('exploration',
             'All outcome / pre-completion / completion-order assignments of WhenAll and WhenAny up to n=4 (quick) or n=5 '
             '(thorough), all Unwrap chains up to depth 3/4 and all ContinueWith / Map variants are enumerated completely '
